@@ -316,4 +316,28 @@ theorem qubitAxis_y {x y z : Int} (hx : x % 2 = 0) (hy : y % 2 = 1) (hz : z % 2 
     qubitAxis [x, y, z] = some Axis.y := by simp [qubitAxis, hx, hy, hz]
 theorem qubitAxis_z {x y z : Int} (hx : x % 2 = 0) (hy : y % 2 = 0) (hz : z % 2 = 1) :
     qubitAxis [x, y, z] = some Axis.z := by simp [qubitAxis, hx, hy, hz]
+/-! ### overlap of filtered key lists (open boundaries: candidates that are not qubits are dropped) -/
+
+theorem ov_filter_both {cV cF : List Coord} (isq : Coord → Bool)
+    (h : ∀ q ∈ cV, q ∈ cF → isq q = true) : ov (cV.filter isq) (cF.filter isq) = ov cV cF := by
+  unfold ov
+  rw [List.countP_filter]
+  apply List.countP_congr
+  intro q hq
+  simp only [List.mem_filter, Bool.and_eq_true, decide_eq_true_eq]
+  constructor
+  · rintro ⟨⟨h1, _⟩, _⟩; exact h1
+  · intro h1; exact ⟨⟨h1, h q hq h1⟩, h q hq h1⟩
+
+theorem ov_filter_left {c K : List Coord} (isq : Coord → Bool) (h : ∀ q ∈ K, isq q = true) :
+    ov (c.filter isq) K = ov c K := by
+  unfold ov
+  rw [List.countP_filter]
+  apply List.countP_congr
+  intro q _
+  simp only [Bool.and_eq_true, decide_eq_true_eq]
+  constructor
+  · rintro ⟨h1, _⟩; exact h1
+  · intro h1; exact ⟨h1, h q h1⟩
+
 end Panqec.Cubic3D
